@@ -598,6 +598,7 @@ Proof.
     destruct (halted s1); simpl; [assumption|].
     eapply same_ctl_Inv; [apply same_ctl_halted|].
     eapply same_ctl_Inv; [apply same_ctl_mdepth|assumption].
+  - simpl. assumption.
 Qed.
 
 Lemma init_Inv : forall gc, Inv (init gc).
